@@ -396,7 +396,7 @@ func (mon) Plan(prop, tier string, seed int64) []drv.Shard {
 	parts := 16
 	maxLen, nrand, nconc, nrace := 4, 2000, 3, 2
 	if tier == "thorough" {
-		maxLen, nrand, nconc, nrace = 6, 100000, 60, 30
+		maxLen, nrand, nconc, nrace = 6, 400000, 150, 80
 	}
 	for p := 0; p < parts; p++ {
 		a, _ := json.Marshal(shardArgs{Kind: "exh", Len: maxLen, Part: p, Parts: parts})
